@@ -59,22 +59,40 @@ ASSUMPTIONS = [
     "a faulty line that is *accepted* is not a violation of C10's text (it speaks about rejections); it shows as a "
     "model/implementation difference",
 ]
-TECHNIQUE = ("Coq proof (exit contract over the variant table regenerated from the source; per-site soundness and "
-             "completeness of the error kinds of the parser/validator model; suggestions subset theorems for every "
-             "similarity function) + extracted-model/implementation correspondence + python fault oracle")
+TECHNIQUE = ("Coq proof (exit contract over the variant table regenerated from the source; whole-parse soundness of "
+             "every error kind for class plain by one invariant-carrying traversal of the parser model "
+             "(ParseProofs/KindSound.v) on top of the per-site soundness/completeness theorems; suggestions subset "
+             "theorems for every similarity function) + extracted-model/implementation correspondence + python fault oracle")
 LEVEL_TEXT = ("Machine-checked theorems (Coq 8.16, closed under the global context): the kind -> stream -> exit-code "
               "table of the model equals the table regenerated from error/kind.rs, error/mod.rs and util/mod.rs on every "
               "run and satisfies the exit contract for all variants; verify_num_args rejects exactly the counts outside "
               "the declared range with the kind that says how; value errors arise exactly for values outside the parser's "
-              "language; the classification of every error of one occurrence's reaction, of the unknown-token triage and "
-              "of the validator's ArgumentConflict / MissingRequiredArgument; did_you_mean / did_you_mean_flag and their "
-              "three call sites only name defined things, for every similarity function.  The model is tied to "
+              "language; did_you_mean / did_you_mean_flag and their three call sites only name defined things, for every "
+              "similarity function.  Round 2: C10_kind_sound -- for every valid definition of class plain (no short "
+              "flag subcommands) and EVERY argv, parse_top = Err e implies Breaks c0 argv e: at some level of the "
+              "subcommand chain (built subcommand, tail of the line) the rule named by the kind is broken -- "
+              "MissingRequiredArgument: a matcher whose explicit entries are all accounted for by tokens of the line / "
+              "declared environment values (faithful) lacks an id that a declaratively stated requirement rule "
+              "(rule_requires / req_by, no validator tables) asks for; ArgumentConflict: two accounted-for ids with a "
+              "declared conflict (C03's `declares`), an exclusive argument beside another, a repeated non-overriding Set "
+              "argument, or a word/subcommand under args_conflicts_with_subcommands; TooMany/TooFew/WrongNumberOfValues: "
+              "an argument named by a token of the line whose occurrence (values = pieces of tokens) has a count outside "
+              "the declared range, or a value attached to a flag; NoEquals: the named token lacks `=`; InvalidValue / "
+              "ValueValidation / InvalidUtf8: a value of known origin outside the value parser's language (C04 "
+              "vocabulary), an empty value, or a non-UTF-8 external subcommand; unknown-token kinds, help/version and "
+              "the two validator kinds likewise.  Proved through a loop invariant (C10_loop_invariant: every loop and "
+              "matcher state) lifted over the subcommand recursion (C10_level_sites); C10_accepted_faithful: the explicit "
+              "entries of an accepted level are accounted for by the line/environment; C10_unbroken_accepted: a line for "
+              "which no error is justified is accepted (contrapositive joined with C01 totality).  The model is tied to "
               "clap_builder by running extracted model and real crate on the same generated cases on every check; an "
               "independent python oracle (fault annotations, exit contract, existence of suggested names) runs on the "
               "implementation's output alone.")
 LEVEL_NOTE = ("Trusted: Coq kernel, extraction, OCaml drivers, Rust harness, generators, table translator; strsim::jaro "
-              "not modelled (parametric theorems); the whole-parse kind soundness is proved per site, the composition "
-              "over the token loop is covered by the differential run only.")
+              "not modelled (parametric theorems).  Not proved: the converse inclusion (every argument named by a token has "
+              "an explicit entry -- false as stated: overrides remove entries, a token that names an argument can be a value "
+              "of another); an independent grammar of fault-free lines (no-spurious-rejection is proved per site and as the "
+              "contrapositive of C10_kind_sound; the round trip of rendered invocations stays with the faultfree stream); "
+              "commands with short flag subcommands (outside class plain; C01 finding).")
 
 HELPVER = ("DisplayHelp", "DisplayVersion")
 KIND_RS = os.path.join(os.environ.get("VERIF_REPO", "/repo"), "clap_builder/src/error/kind.rs")
